@@ -33,4 +33,6 @@ VARIANTS = [
      'edits': [('atom.py', "hybrid36.decode(line[6:11])", "hybrid36.decode(line[6:12])")]},
     {'name': 'equivalent-offset-form-silent', 'expect': 'pass',
      'edits': [(H, "reference = - (10 * 36 ** (num_chars - 1) - 10 ** num_chars)", "reference = 10 ** num_chars - 10 * 36 ** (num_chars - 1)")]},
+    {'name': 'revert-fix-F15-strip-all-whitespace', 'rule': 'C19.R2',
+     'edits': [(H, 'input_string = input_string.strip(" ")', 'input_string = input_string.strip()')]},
 ]
